@@ -405,27 +405,26 @@ class EquationSolver(object):
             Logger('Had evaluation errors')
             raise ValueError(last_error)
         Logger('Number of iterations: {0}'.format(num_tries), priority=3)
-        # Then: append values to the time series
-        varlist = [x[0] for x in self.Parser.Endogenous] + [x[0] for x in self.Parser.Lagged]
-        for var in varlist:
-            assert (len(self.TimeSeries[var]) == step)
-            self.TimeSeries[var].append(initial[var])
-        # Finally: augment with decorative variables
+        # Finally: compute the decorative variables
         # This is complicated as decorative variables may depend upon other decorative variables
         # Create a holding variable that lists the equations, and keep iterating through the list
+        # Nothing is appended to the time series until every value of the period is known, so that
+        # a failure leaves the periods already solved untouched.
+        decoration_values = []
         vars_to_compute = []
         for var, eqn in self.Parser.Decoration:
             vars_to_compute.append((var, eqn))
         while len(vars_to_compute) > 0:
             failed = []
             for var, eqn in vars_to_compute:
-                assert (len(self.TimeSeries[var]) == step)
                 try:
                     val = eval(eqn, globals(), initial)
                     initial[var] = val
-                    self.TimeSeries[var].append(val)
+                    decoration_values.append((var, val))
                 except NameError:
                     failed.append((var, eqn))
+                except (ZeroDivisionError, OverflowError) as er:
+                    raise ValueError('Error evaluating variable {0} = {1}'.format(var, str(er)))
             # If we failed on every single decoration variable, something is wrong.
             if len(failed) == len(vars_to_compute):
                 # NOTE: We should not get here; it means that the decoration variables are
@@ -437,6 +436,14 @@ class EquationSolver(object):
                     Logger(out)
                 raise ValueError('Cannot solve decoration equations!\n'+out)
             vars_to_compute = failed
+        # Then: append values to the time series
+        varlist = [x[0] for x in self.Parser.Endogenous] + [x[0] for x in self.Parser.Lagged]
+        for var in varlist:
+            assert (len(self.TimeSeries[var]) == step)
+            self.TimeSeries[var].append(initial[var])
+        for var, val in decoration_values:
+            assert (len(self.TimeSeries[var]) == step)
+            self.TimeSeries[var].append(val)
 
     def SolveEquation(self):
         if len(self.VariableList) == 0:
